@@ -463,6 +463,56 @@ func stackLen(r *rand.Rand, big bool) int {
 	return 1 + r.Intn(8)
 }
 
+// shapedBytes: byte strings of the LENGTHS and FORMS that mean something to code handling such a field (addresses of 4
+// and 16 bytes incl. the IPv4-mapped / IPv4-compatible / unspecified / loopback forms, the lengths next to them,
+// leading / trailing zero bytes, printable forms): a writer that normalises, shortens or trims what it is given does
+// not return "the same step".  Content extremes alone do not reach these.
+func shapedBytes() [][]byte {
+	v4 := []byte{10, 1, 2, 3}
+	cat := func(parts ...[]byte) []byte {
+		var o []byte
+		for _, p := range parts {
+			o = append(o, p...)
+		}
+		return o
+	}
+	z := func(n int) []byte { return make([]byte, n) }
+	ff := func(n int) []byte { return bytes.Repeat([]byte{0xff}, n) }
+	return [][]byte{
+		v4, {0, 0, 0, 0}, {127, 0, 0, 1}, {255, 255, 255, 255}, {224, 0, 0, 1}, {0, 0, 0, 1}, {1, 0, 0, 0},
+		cat(z(10), ff(2), v4),                   // ::ffff:10.1.2.3 (IPv4-mapped)
+		cat(z(10), ff(2), z(4)),                 // ::ffff:0.0.0.0
+		cat(z(10), ff(2), ff(4)),                // ::ffff:255.255.255.255
+		cat(z(10), ff(2), []byte{127, 0, 0, 1}), // ::ffff:127.0.0.1
+		cat(z(12), v4),                          // ::10.1.2.3 (IPv4-compatible)
+		z(16),                                   // ::
+		cat(z(15), []byte{1}),                   // ::1
+		cat([]byte{0x20, 0x01, 0x0d, 0xb8}, z(11), []byte{1}),                              // 2001:db8::1
+		cat([]byte{0xfe, 0x80}, z(6), []byte{2, 0x1b, 0x21, 0xff, 0xfe, 0x3c, 0x4d, 0x5e}), // link local
+		cat([]byte{0, 0x64, 0xff, 0x9b}, z(8), v4),                                         // 64:ff9b::10.1.2.3 (NAT64)
+		ff(16),
+		cat(z(9), ff(2), v4),  // 15 bytes: one short of the mapped form
+		cat(z(11), ff(2), v4), // 17 bytes: one more
+		cat(z(10), ff(2), v4, z(1)),
+		z(3), z(5), z(6), z(8), z(12), z(15), z(17), z(20), z(32),
+		{0, 0, 7}, {7, 0, 0}, {0}, {0, 0}, {0xff}, {0x80}, {0x7f},
+		[]byte("10.1.2.3"), []byte("::ffff:10.1.2.3"), []byte(" x "), []byte("x\x00"), {0xef, 0xbb, 0xbf, 'x'},
+	}
+}
+
+// shapedTexts: texts a writer could be tempted to tidy up (white space at the ends, letter case, NUL bytes, bytes that
+// are not UTF-8, composed / decomposed letters, a byte order mark, paths and URLs that have a shorter equal form,
+// numbers with a sign or leading zeros, the words for nothing).
+func shapedTexts() []string {
+	return []string{
+		" lead", "trail ", "  both  ", "\tx\n", "x\r\n", "\n", " ", "UPPER", "MiXeD", "lower",
+		"a\x00b", "\x00", "x\x00\x00", "\x00x", "\xff\xfe", "\xc3", "x\xed\xa0\x80y", "\u00e9", "e\u0301", "\ufeffx", "x\ufeff", "\u200bx",
+		"http://Host.Example:80/a/../b//c/./d?x=1&y=%20#frag", "HTTP://h/", "/a//b/./c/", "/a/b/../c", "a%20b", "a+b", "a?b#c", "/", "//",
+		"007", "-0", "+1", "1e3", "0x10", "0", "1", "-1", "null", "nil", "NULL", "<nil>", "undefined", "true", "false", "NaN",
+		"select * from T where a=? /* c */", "SELECT  1", "a;b", "'q'", "\"q\"", "\\", "a\\nb", "%s%d", "{}", "[]",
+	}
+}
+
 // a map shape with n distinct non-empty keys; values of every type code
 func mapShape(r *rand.Rand, n int, depth int) *valgen.Node {
 	m := valgen.Map()
@@ -545,8 +595,18 @@ func setRandom(r *rand.Rand, it *item, f fld, big bool) {
 	case "b":
 		f.v.SetBool(r.Intn(2) == 1)
 	case "s":
+		if r.Intn(6) == 0 {
+			sh := shapedTexts()
+			f.v.SetString(sh[r.Intn(len(sh))])
+			return
+		}
 		f.v.SetString(string(valgen.RandText(r, textLen(r, big))))
 	case "y":
+		if r.Intn(4) == 0 {
+			sh := shapedBytes()
+			f.v.SetBytes(append([]byte{}, sh[r.Intn(len(sh))]...))
+			return
+		}
 		n := textLen(r, big)
 		if n == 0 && r.Intn(2) == 0 {
 			f.v.Set(reflect.Zero(f.v.Type()))
@@ -1008,7 +1068,7 @@ func gridValues(r *rand.Rand, it *item, f fld, th bool) []func() {
 	case "b":
 		out = append(out, func() { f.v.SetBool(false) }, func() { f.v.SetBool(true) })
 	case "s", "y":
-		lens := []int{0, 1, 2, 252, 253, 254, 255, 256}
+		lens := []int{0, 1, 2, 3, 4, 5, 6, 8, 12, 15, 16, 17, 20, 32, 64, 252, 253, 254, 255, 256}
 		if th {
 			lens = append(lens, 65534, 65535, 65536, 70000)
 		}
@@ -1022,8 +1082,22 @@ func gridValues(r *rand.Rand, it *item, f fld, th bool) []func() {
 		}
 		if f.kind == "y" {
 			out = append(out, func() { f.v.Set(reflect.Zero(f.v.Type())) })
+			for _, b := range shapedBytes() {
+				b := b
+				out = append(out, func() { f.v.SetBytes(append([]byte{}, b...)) })
+			}
+		} else {
+			for _, t := range shapedTexts() {
+				t := t
+				out = append(out, func() { f.v.SetString(t) })
+			}
 		}
 	case "a":
+		// forms a writer could tidy up: equal entries, zeros at the ends, descending / ascending runs
+		for _, a := range [][]int32{{5, 5, 5}, {0, 0, 0}, {0, 0, 7}, {7, 0, 0}, {0}, {3, 2, 1}, {1, 2, 3}, {1, 2, 1, 2}, {-1, -1}} {
+			a := a
+			out = append(out, func() { f.v.Set(reflect.ValueOf(append([]int32{}, a...))) })
+		}
 		lens := []int{-1, 0, 1, 2, 3, 127, 128}
 		if th {
 			lens = append(lens, 255, 256, 1000, 32767)
@@ -1125,7 +1199,7 @@ func setAll(it *item, r *rand.Rand, mode int) {
 func Run(c *core.Ctx) error {
 	th := c.Thorough()
 	c.Rule = "items = steps of the 11 step types (9 factory types, SqlStep_3, MessageStepX; every version byte / option flag), the 3 service record types and transaction records, " +
-		"built through golib's constructors with every exported field set (boundary values of the field's width, text/blob lengths around 253..256, stacks of 0..128 entries, attribute / custom-field maps of 0..255 entries over all value type codes); " +
+		"built through golib's constructors with every exported field set (boundary values of the field's width, text/blob lengths 0..6, 8, 12, 15..17, 20, 32, 64 and around 253..256, byte strings and texts of the forms code could tidy up (4- and 16-byte addresses incl. the IPv4-mapped form, zero bytes and white space at the ends, NUL, non-UTF-8, letter case), stacks of 0..128 entries, attribute / custom-field maps of 0..255 entries over all value type codes); " +
 		"each item is written into a stream of 1..60 items by the real writer and read back by the real reader; generator retain: 2..8 streams of 1..12 items encoded by every encoder entry point before any is decoded, " +
 		"every output handed back kept and looked at again after the later encodings and decodings; non-trivial = written form of >= 2 bytes; distinct by (kind, written bytes)"
 	bypass := 0
@@ -1291,6 +1365,74 @@ func Run(c *core.Ctx) error {
 		}
 		return items
 	})
+
+	// ---- onehot: per kind one history.  For every field two items in which ONLY that field is away from its zero
+	// value (a small value with every optional section off, an extreme one with every section on), then items whose
+	// fields all hold the same value: whether a field comes back must not depend on what the OTHER fields hold
+	// (a writer that sends a field only beside a non-zero neighbour, or only when it differs from one).
+	for ki, k := range allKinds() {
+		if !c.Want("onehot", ki) {
+			continue
+		}
+		r := c.Rng("onehot", ki)
+		var items []*item
+		nf := len(fieldsOf(k.mk()))
+		for fi := 0; fi < nf; fi++ {
+			for form := 0; form < 2; form++ {
+				it := &item{def: k, p: k.mk()}
+				setAll(it, r, 0)
+				f := fieldsOf(it.p)[fi]
+				if form == 1 {
+					enable(it, f.name)
+				}
+				switch f.kind {
+				case "i":
+					f.v.SetInt([]int64{1, trunc(math.MinInt64>>uint(64-f.v.Type().Bits()), f.v.Type().Bits())}[form])
+				case "u":
+					f.v.SetUint([]uint64{1, 255}[form])
+				case "b":
+					f.v.SetBool(true)
+				case "s":
+					f.v.SetString([]string{"x", string(valgen.RandText(r, 40))}[form])
+				case "y":
+					f.v.SetBytes([][]byte{{1}, valgen.RandBytes(r, 16)}[form])
+				case "a":
+					f.v.Set(reflect.ValueOf([][]int32{{1}, {math.MinInt32, 0, math.MaxInt32}}[form]))
+				case "m":
+					setMap(it, f, mapShape(r, 1+2*form, 1))
+				}
+				items = append(items, it)
+			}
+		}
+		for _, v := range []int64{7, -1, 0x0101010101010101} {
+			for form := 0; form < 2; form++ {
+				it := &item{def: k, p: k.mk()}
+				setAll(it, r, 0)
+				for _, f := range fieldsOf(it.p) {
+					switch f.kind {
+					case "i":
+						f.v.SetInt(trunc(v, f.v.Type().Bits()))
+					case "u":
+						f.v.SetUint(uint64(v) & 0xff)
+					case "b":
+						f.v.SetBool(v&1 == 1)
+					case "s":
+						f.v.SetString(fmt.Sprint(v))
+					case "y":
+						f.v.SetBytes([]byte{byte(v)})
+					case "a":
+						f.v.Set(reflect.ValueOf([]int32{int32(v)}))
+					}
+				}
+				if form == 1 {
+					enable(it, "")
+				}
+				items = append(items, it)
+			}
+		}
+		h := &hist{c: c, t: grid, gen: "onehot", cas: ki, bypass: &bypass}
+		h.stream(r, items, false, nil, core.Ev{"kind": k.name})
+	}
 
 	// ---- txopt: every combination of the optional groups of a transaction record
 	{
